@@ -274,6 +274,9 @@ func (s *store) dispatchRequests() {
 		case req := <-s.updateChan:
 			if req.response != nil {
 				req.response <- s.update(req.username, req.password)
+			} else if ok, _, upgradeable, _, err := s.dir.Authenticate(req.username, req.password); err != nil || !ok || !upgradeable {
+				// the password might have been changed (or the hash upgraded) since the upgrade got queued
+				wdl.Printf("upgrade(local): skipping stale upgrade request for '%s'", req.username)
 			} else {
 				wdl.Printf("upgrade(local): upgrading '%s'", req.username)
 				if resp := s.update(req.username, req.password); resp.err != nil {
